@@ -7,7 +7,10 @@ if ! git -C /repo apply "$P" 2>/dev/null; then
     if ! (cd /repo && patch -p1 -F3 -s < "$P"); then git -C /repo reset -q --hard HEAD; echo "patch does not apply"; exit 2; fi
   fi
 fi
+# the evidence file describes the last run on the real tree: keep it across the run on the changed one
+EV=/verif/evidence/$ID.json; [ -f "$EV" ] && cp "$EV" "$EV.keep"
 cd /verif && ./check "$ID" --tier "$TIER"; RC=$?
+[ -f "$EV.keep" ] && mv "$EV.keep" "$EV"
 git -C /repo reset -q --hard HEAD; git -C /repo clean -qfd crates
 echo "check exit=$RC"
 exit 0
